@@ -5,7 +5,7 @@ import re
 from typing import Any
 
 from .. import Params, Parseable
-from ..primitives import String, QuotedString
+from ..primitives import String
 
 __all__ = ['AString']
 
@@ -59,5 +59,6 @@ class AString(Parseable[bytes]):
             if match:
                 self._raw = self.value
             else:
-                self._raw = bytes(QuotedString(self.value))
+                # a literal, if the value cannot be in a quoted string
+                self._raw = bytes(String.build(self.value))
         return self._raw
